@@ -76,12 +76,17 @@ def main():
     ns = dict(p={"AA": -1, "BB": 6}, b1={"AA": [4, -4], "BB": [4, 4]}, b2={"AA": [-4, -4], "BB": [4, -4]}, w={"AA": 3, "BB": 5},
               lhs=[], rhs=[], stop=[], corr=True, base=10, nweights=2, history=[])
     rec = {"kind": "inject", "ns": ns, "obs": calls.run_summary_injected(ns)}
+    rec["earlier"] = {k: rec["obs"][k] for k in ("kind", "pred", "lower", "upper")}
     ok, cl = verdict("Trace_NationalSummary", "Trace_NationalSummary.cfg", [rec])
     allok &= expect("national summary: injected scenario accepted", ok, True)
     bad = copy.deepcopy(rec)
     bad["obs"]["lower"] = bad["obs"]["pred"] + 3
     ok, cl = verdict("Trace_NationalSummary", "Trace_NationalSummary.cfg", [bad])
     allok &= expect("national summary: lower bound above the prediction rejected", ok, False, cl, "ordered")
+    bad = copy.deepcopy(rec)
+    bad["earlier"]["lower"] = bad["obs"]["pred"]
+    ok, cl = verdict("Trace_NationalSummary", "Trace_NationalSummary.cfg", [bad])
+    allok &= expect("national summary: a triple that depends on an earlier round of calls rejected", ok, False, cl, "summary_independent_of_an_earlier_round_of_calls")
     print("binding self-test:", "passed" if allok else "FAILED")
     return 0 if allok else 2
 
